@@ -161,8 +161,14 @@ fn create_region(w: &mut World, t: &mut Tape, cx: &mut Cx) -> Result<Reg, String
     let (mapping, owned, kname): (MmapRegion<()>, bool, &'static str) = match kind {
         0 | 1 => (MmapRegion::new(size).map_err(|e| format!("{:?}", e))?, true, "anonymous"),
         2 => {
-            let f = memfd((size.div_ceil(PS) * PS) as u64 + PS as u64);
-            let off = if t.flag() { PS as u64 } else { 0 };
+            let f = memfd((size.div_ceil(PS) * PS) as u64 + 2 * PS as u64);
+            // page-aligned offsets, and unaligned ones (which the OS refuses today: then the
+            // region simply is not created)
+            let off = match t.below(4) {
+                0 => 0,
+                1 | 2 => PS as u64,
+                _ => t.pick(&[0x800u64, 0x123, 0x1a00]),
+            };
             let mut b = MmapRegionBuilder::new(size)
                 .with_file_offset(FileOffset::new(f, off))
                 .with_mmap_prot(libc::PROT_READ | libc::PROT_WRITE)
@@ -173,7 +179,18 @@ fn create_region(w: &mut World, t: &mut Tape, cx: &mut Cx) -> Result<Reg, String
                     cx.nt("hugetlbfs_hint");
                 }
             }
-            (b.build().map_err(|e| format!("{:?}", e))?, true, "file-backed")
+            match b.build() {
+                Ok(m) => (m, true, "file-backed"),
+                Err(e) => {
+                    if off % PS as u64 != 0 {
+                        cx.count("unaligned_file_offset_refused", 1);
+                        // fall back to an anonymous region so that the history goes on
+                        (MmapRegion::new(size).map_err(|e| format!("{:?}", e))?, true, "anonymous")
+                    } else {
+                        return Err(format!("file-backed region (offset {:#x}) could not be created: {:?}", off, e));
+                    }
+                }
+            }
         }
         _ => {
             // externally provided mapping
@@ -244,7 +261,7 @@ fn run(t: &mut Tape, cx: &mut Cx) -> Result<(), String> {
                     what = format!("create region {} ({}, {:#x} bytes)", id, w.regions[id].kind, w.regions[id].size);
                     // the creation itself maps exactly once (owned) or not at all (raw)
                     let log = interpose::take();
-                    let n = log.iter().filter(|e| matches!(e, Ev::Mmap { .. })).count();
+                    let n = log.iter().filter(|e| matches!(e, Ev::Mmap { ret, .. } if *ret != usize::MAX)).count();
                     ensure!(n == if w.regions[id].owned { 1 } else { 0 }, "{}: {} mmap calls during creation", what, n);
                     w.owners.push(Owner::Handle(r, id));
                 } else {
